@@ -14,5 +14,6 @@ func TestMain(m *testing.M) {
 		"C13mcrew": C13mcrew,
 		"C17glue":  C17glue,
 		"C09mcrew": C09mcrew,
+		"C08mcrew": C08mcrew,
 	})
 }
